@@ -149,6 +149,42 @@ func probeFlight(p flightArg) (string, string) {
 	return "", ""
 }
 
+// history of depth 2: a rendering/marshalling followed by another one; the second text must parse back to the second size
+type histArg struct {
+	S1, S2 uint64
+	P1, P2 int // 0 String, 1 PrettyString, 2 MarshalText, 3 MarshalJSON
+}
+
+func renderVia(s uint64, p int) (string, bool) {
+	switch p {
+	case 0:
+		return size.Size(s).String(), false
+	case 1:
+		return size.Size(s).PrettyString(), false
+	case 2:
+		b, _ := size.Size(s).MarshalText()
+		return string(b), false
+	}
+	b, _ := size.Size(s).MarshalJSON()
+	return string(b), true
+}
+
+func probeHist(h histArg) (string, string) {
+	_, _ = renderVia(h.S1, h.P1)
+	txt, isJSON := renderVia(h.S2, h.P2)
+	var g size.Size
+	var err error
+	if isJSON {
+		err = g.UnmarshalJSON([]byte(txt))
+	} else {
+		g, err = size.DefaultParser(txt, 0)
+	}
+	if err != nil || uint64(g) != h.S2 {
+		return "after_previous_call:render_parse", fmt.Sprintf("after rendering %d (path %d), %d renders (path %d) as %q, which reads back as %d, %v", h.S1, h.P1, h.S2, h.P2, txt, uint64(g), err)
+	}
+	return "", ""
+}
+
 func main() {
 	mc.Main("C04", "every value of the stated alphabet x all 8 Disable* configurations x {MarshalText->UnmarshalText, MarshalJSON->UnmarshalJSON, json.Marshal->json.Unmarshal of struct/pointer/slice/map containers, indented documents, String/PrettyString -> DefaultParser}; "+
 		"non-trivial = value is shortened to a unit above B or has more than three digits", func(r *mc.Run) {
@@ -170,6 +206,22 @@ func main() {
 					for _, b := range vs {
 						w.Point()
 						pfl.Do(w, flightArg{a, b})
+					}
+				}
+			})
+		})
+		ph := mc.NewProbe(r, "history2", nil, probeHist)
+		r.Phase("serial: all histories of two renderings (String, PrettyString, MarshalText, MarshalJSON) over 14 sizes incl. pairs with the same shortened number", "complete for depth 2 over the listed sizes", func() {
+			hs := []uint64{0, 1, 3, 3072, 3 << 20, 5 << 20, 5 << 30, 1023, 1023 << 10, 1024, 1234567, 1234567 << 10, 1 << 60, 18446744073709551615}
+			r.Serial(func(w *mc.W) {
+				for _, a := range hs {
+					for pa := 0; pa < 4; pa++ {
+						for _, b := range hs {
+							for pb := 0; pb < 4; pb++ {
+								w.Point()
+								ph.Do(w, histArg{a, b, pa, pb})
+							}
+						}
 					}
 				}
 			})
